@@ -47,6 +47,58 @@ def _add_reference_to_dependencies(
     dependencies[name] |= {ir_util.hashable_form_of_reference(reference)}
 
 
+_KEYWORD_REFERENCES = {"$is_statically_sized", "$static_size_in_bits", "$next"}
+
+
+def _check_keyword_reference(reference, source_file_name, errors, keywords):
+    """Reports a builtin keyword that is used where it has no meaning."""
+    if (
+        reference.has_field("canonical_name")
+        and reference.canonical_name.object_path
+        and reference.canonical_name.object_path[0] in keywords
+    ):
+        errors.append(
+            [
+                error.error(
+                    source_file_name,
+                    reference.source_location,
+                    "Keyword `"
+                    + reference.canonical_name.object_path[0]
+                    + "` may not be used in this context.",
+                ),
+            ]
+        )
+
+
+def _check_keywords_in_skipped_subtree(
+    node, source_file_name, errors, type_definition=None
+):
+    """Checks the parts of the IR that the dependency walk does not enter.
+
+    Attribute values and type arguments are not walked for dependencies, so
+    keywords inside them would otherwise reach later passes, which assume that
+    `$next` has been replaced and that `$is_statically_sized` and
+    `$static_size_in_bits` only occur in the attributes of an `external`.
+    """
+    keywords = _KEYWORD_REFERENCES
+    if (
+        isinstance(node, ir_data.Attribute)
+        and type_definition is not None
+        and type_definition.has_field("external")
+    ):
+        keywords = {"$next"}
+    traverse_ir.fast_traverse_node_top_down(
+        node,
+        [ir_data.Reference],
+        _check_keyword_reference,
+        parameters={
+            "source_file_name": source_file_name,
+            "errors": errors,
+            "keywords": keywords,
+        },
+    )
+
+
 def _add_field_reference_to_dependencies(reference, dependencies, name):
     dependencies[name] |= {ir_util.hashable_form_of_reference(reference.path[0])}
 
@@ -82,6 +134,14 @@ def _find_dependencies(ir):
             "errors": errors,
         },
     )
+    for skipped_type in (ir_data.Attribute, ir_data.AtomicType):
+        traverse_ir.fast_traverse_ir_top_down(
+            ir,
+            [skipped_type],
+            _check_keywords_in_skipped_subtree,
+            skip_descendants_of={ir_data.Attribute, ir_data.AtomicType},
+            parameters={"errors": errors},
+        )
     traverse_ir.fast_traverse_ir_top_down(
         ir,
         [ir_data.FieldReference],
